@@ -8,8 +8,10 @@ import (
 	"context"
 	"encoding/json"
 	"fmt"
+	"math"
 	"math/rand"
 	"sort"
+	"strconv"
 	"strings"
 
 	"github.com/cloudwego/dynamicgo/meta"
@@ -28,6 +30,8 @@ type FldJ struct {
 	Key  B      `json:"key"` // alias (api.key); defaults to the name
 	Req  string `json:"req"`
 	Ty   TyJ    `json:"ty"`
+	Hasd bool   `json:"hasd"` // the descriptor carries a parsed default value
+	Dflt SubV   `json:"dflt"` // its Thrift encoding
 }
 type DescJ struct {
 	Structs map[string][]FldJ `json:"structs"`
@@ -103,7 +107,13 @@ func printIDL(d DescJ) string {
 			if len(f.Key) > 0 && string(f.Key) != f.Name {
 				anno = fmt.Sprintf(" (api.key = %q)", string(f.Key))
 			}
-			fmt.Fprintf(&sb, "  %d: %s%s %s%s\n", f.ID, reqWord(f.Req), tyName(f.Ty), f.Name, anno)
+			dflt := ""
+			if f.Hasd {
+				if v, n, err := DecodeVal(byte(f.Dflt.T), f.Dflt.B, 0, 0); err == nil && n == len(f.Dflt.B) {
+					dflt = " = " + idlConst(v, f.Ty)
+				}
+			}
+			fmt.Fprintf(&sb, "  %d: %s%s %s%s%s\n", f.ID, reqWord(f.Req), tyName(f.Ty), f.Name, dflt, anno)
 		}
 		sb.WriteString("}\n")
 	}
@@ -132,6 +142,9 @@ func normDesc(d *DescJ) {
 			if len(fs[i].Key) == 0 {
 				fs[i].Key = B(fs[i].Name)
 			}
+			if fs[i].Dflt.B == nil {
+				fs[i].Dflt.B = B{}
+			}
 		}
 	}
 }
@@ -159,7 +172,12 @@ func dumpTy(td *thrift.TypeDescriptor, out map[string][]FldJ) TyJ {
 				case thrift.OptionalRequireness:
 					req = "opt"
 				}
-				fs = append(fs, FldJ{ID: int(f.ID()), Name: f.Name(), Key: B(f.Alias()), Req: req, Ty: dumpTy(f.Type(), out)})
+				fj := FldJ{ID: int(f.ID()), Name: f.Name(), Key: B(f.Alias()), Req: req, Ty: dumpTy(f.Type(), out), Dflt: SubV{B: B{}}}
+				if dv := f.DefaultValue(); dv != nil {
+					fj.Hasd = true
+					fj.Dflt = SubV{T: int(f.Type().Type()), B: B(dv.ThriftBinary())}
+				}
+				fs = append(fs, fj)
 			}
 			sort.Slice(fs, func(i, j int) bool { return fs[i].ID < fs[j].ID })
 			out[t.N] = fs
@@ -493,4 +511,34 @@ func c11Main(args map[string]string) {
 		c.genRandom(int64(atoi(args["seed"])), idx, n)
 	}
 	fmt.Printf("c11 cases=%d events=%d\n", c.cases, out.n)
+}
+
+// idlConst prints a Thrift value as an IDL constant (defaults of scalar, list, set and map types)
+func idlConst(v *Val, ty TyJ) string {
+	switch v.T {
+	case tBOOL:
+		if v.B[0] != 0 {
+			return "true"
+		}
+		return "false"
+	case tI8, tI16, tI32, tI64:
+		return fmt.Sprint(fromBE8(signExt8(v.B)))
+	case tDBL:
+		return strconv.FormatFloat(math.Float64frombits(uint64(fromBE8(v.B))), 'g', -1, 64)
+	case tSTR:
+		return strconv.Quote(string(v.B))
+	case tLIST, tSET:
+		parts := []string{}
+		for _, e := range v.E {
+			parts = append(parts, idlConst(e, ty.A[0]))
+		}
+		return "[" + strings.Join(parts, ", ") + "]"
+	case tMAP:
+		parts := []string{}
+		for _, p := range v.P {
+			parts = append(parts, idlConst(p.K, ty.A[0])+": "+idlConst(p.V, ty.A[1]))
+		}
+		return "{" + strings.Join(parts, ", ") + "}"
+	}
+	return "0"
 }
